@@ -508,6 +508,8 @@ def run(ctx):
     from .finder import rule_parse_complete
     rule_parse_complete(ctx, facts, "C01-R7")
     rule_file_list_immutable(ctx, facts, "C01-R7")
+    from .entry import rule_entry_record
+    rule_entry_record(ctx, facts, "C01-R2")
     ctx.assume("the lock, when used, is ahead of every ID in the tree (statement's precondition)")
     ctx.assume("files do not change between the scanning pass and the insertion pass of one run")
     return {
